@@ -55,7 +55,7 @@ func init() {
 				return "ok"
 			case len(t) >= 1 && t[0] == "conc":
 				return runAbmfConc(t)
-			case len(t) == 10 && t[0] == "ccr":
+			case (len(t) == 10 || len(t) == 11) && t[0] == "ccr":
 				sess, _ := unhex(t[1])
 				sub, _ := unhex(t[6])
 				ccr := &cd.AccountDebitRequest{
@@ -91,6 +91,11 @@ func init() {
 						}
 					}
 					msg = m2
+				}
+				if len(t) == 11 {
+					// the request carries a chosen End-to-End Identifier (RFC 6733: unique per sender for 4 minutes at least
+					// - another request of the history may carry the same one: it is another request all the same)
+					msg.Header.EndToEndID = uint32(u(strings.TrimPrefix(t[10], "e")))
 				}
 				a, st := abmfPeer.roundTrip(msg)
 				rep := ""
@@ -185,8 +190,12 @@ func genAbmf(o genOpts, w *bufio.Writer) {
 			if r.chance(12) {
 				actTok = "0-" // no Requested-Action AVP at all (the server sees the zero value, DIRECT_DEBITING)
 			}
-			fmt.Fprintf(w, "abmf ccr %s %d %d %s %d %s %d %d %d\n", hexOf([]byte(fmt.Sprintf("s%d", r.intn(1000)))),
-				reqType, r.intn(1<<20), actTok, subType, hexOf([]byte(ue[5:])), rg, amt(), amt())
+			e2e := ""
+			if r.chance(25) {
+				e2e = fmt.Sprintf(" e%d", r.pick(1, 2, 3, 4294967295))
+			}
+			fmt.Fprintf(w, "abmf ccr %s %d %d %s %d %s %d %d %d%s\n", hexOf([]byte(fmt.Sprintf("s%d", r.intn(1000)))),
+				reqType, r.intn(1<<20), actTok, subType, hexOf([]byte(ue[5:])), rg, amt(), amt(), e2e)
 			done++
 		}
 	}
